@@ -14,9 +14,11 @@ evaluation + `initialize_locals`).  `Sig` is a `def` signature with positional-o
 * `not_arity_iff_kwdup`, `not_arity_iff_star_kw`, `not_arity_iff_typeddict_names_star_args`
                               the full statement (with `*tuple` / `**TypedDict` actuals) is false of the
                               current code: three witnesses (findings F9 i, ii, iii) — all false *accepts*
-* `arity_iff_partial`         the iff on the calls that avoid the excluded shapes, for calls whose
-                              `*`/`**` actuals are empty … see the statement; the general `*tuple` /
-                              `**TypedDict` expansion is covered by the exhaustive correspondence
+* `arity_iff_star`, `expand_star_equiv`
+                              the same with `*tuple` actuals of known length anywhere among the positional
+                              actuals: a `*tuple` of length k behaves, in both models, like k positionals
+* `**TypedDict` actuals       no general theorem: the three F9 shapes live there; covered by the exhaustive
+                              correspondence, the shapes are the decidable predicates of Model/PyBind.lean
 -/
 namespace PyBind
 open ArgMap
@@ -59,6 +61,52 @@ theorem arity_core_no_false_reject (s : Sig) (hwf : s.WF) (npos : Nat) (kws : Li
   rw [pyCall_core s npos kws hk] at h
   injection h with h
   exact (mypy_ok_iff s hwf npos kws hk).2 ((pyBind_none_iff s npos kws hk).1 h)
+
+/-- **arity_iff_star** (`expand_star_equiv` + `arity_iff_core`) — the same with `*tuple` actuals of
+    statically known lengths anywhere among the positional actuals: for every well-formed signature, every
+    list of positional groups (`none` = one positional actual, `some k` = a `*tuple` with `k` items, `k ≥ 0`)
+    and all distinct keywords, mypy's model reports an arity / keyword diagnostic if and only if CPython's
+    model raises `TypeError`; both are decided by `CoreOk` at the expanded number `width pa` of positional
+    arguments, i.e. a `*tuple` of length `k` behaves in both models like `k` positional actuals. -/
+theorem arity_iff_star (s : Sig) (hwf : s.WF) (pa : List (Option Nat)) (kws : List Name) (hk : kws.Nodup) :
+    mypyRejects s.toFormals (starCall pa kws) = true ↔ pyRaises s (starCall pa kws) = some true := by
+  have h1 := mypy_ok_iff_star s hwf pa kws hk
+  have h2 := pyBind_none_iff s (width pa) kws hk
+  unfold mypyRejects pyRaises
+  rw [pyCall_star s pa kws hk]
+  simp only [Option.map_some, Option.some.injEq]
+  constructor
+  · intro h
+    cases hb : pyBind s (width pa) kws with
+    | some e => rfl
+    | none =>
+      have := h1.2 (h2.1 hb)
+      rw [this] at h; simp at h
+  · intro h
+    cases hm : mypyErrors s.toFormals (starCall pa kws) with
+    | cons e es => rfl
+    | nil =>
+      have := h2.2 (h1.1 hm)
+      rw [this] at h; simp at h
+
+/-- `expand_star_equiv`: a `*tuple` of known length `k` is, for both models, the same as `k` positional
+    actuals in its place (stated on the verdicts) -/
+theorem expand_star_equiv (s : Sig) (hwf : s.WF) (pa : List (Option Nat)) (kws : List Name) (hk : kws.Nodup) :
+    mypyRejects s.toFormals (starCall pa kws) = mypyRejects s.toFormals (coreCall (width pa) kws) ∧
+    pyRaises s (starCall pa kws) = pyRaises s (coreCall (width pa) kws) := by
+  constructor
+  · have a := mypy_ok_iff_star s hwf pa kws hk
+    have b := mypy_ok_iff s hwf (width pa) kws hk
+    unfold mypyRejects
+    cases h1 : mypyErrors s.toFormals (starCall pa kws) with
+    | nil =>
+      rw [b.2 (a.1 h1)]
+    | cons e es =>
+      cases h2 : mypyErrors s.toFormals (coreCall (width pa) kws) with
+      | nil => rw [a.2 (b.1 h2)] at h1; cases h1
+      | cons e' es' => rfl
+  · unfold pyRaises
+    rw [pyCall_star s pa kws hk, pyCall_core s (width pa) kws hk]
 
 /-! ## the full statement is false of the current code (F9) -/
 
@@ -109,6 +157,16 @@ example :
     mypyRejects s.toFormals (coreCall 2 [5]) = false ∧ pyRaises s (coreCall 2 [5]) = some false ∧
     mypyRejects s.toFormals (coreCall 1 [5]) = true ∧ pyRaises s (coreCall 1 [5]) = some true ∧
     mypyRejects s.toFormals (coreCall 2 [2, 5]) = true ∧ pyRaises s (coreCall 2 [2, 5]) = some true := by
+  decide
+
+/-- `def f(a, b=0, *, k)`: `f(*(1, 2), k=…)` binds, `f(1, *(1, 2), k=…)` does not, `f(*(), *(1,), a=…)` does not -/
+example :
+    let s : Sig := { posonly := [], poskw := [1, 2], ndef := 1, varargs := none, kwonly := [(5, false)], varkw := none }
+    mypyRejects s.toFormals (starCall [some 2] [5]) = false ∧ pyRaises s (starCall [some 2] [5]) = some false ∧
+    mypyRejects s.toFormals (starCall [none, some 2] [5]) = true ∧
+    pyRaises s (starCall [none, some 2] [5]) = some true ∧
+    mypyRejects s.toFormals (starCall [some 0, some 1] [1, 5]) = true ∧
+    pyRaises s (starCall [some 0, some 1] [1, 5]) = some true := by
   decide
 
 example : CoreOk { posonly := [], poskw := [1], ndef := 0, varargs := none, kwonly := [], varkw := none } 0 [1] := by
